@@ -31,12 +31,17 @@ def _set(xs):
     return s
 
 
+def _fresh(x):
+    """An equal but distinct str object (what a parser produces for every occurrence of a name)."""
+    return x.encode('utf-8').decode('utf-8') if isinstance(x, str) and len(x) > 1 else x
+
+
 def build_dfa(spec):
     Q = _set(spec['Q'])
     Sigma = _set(spec['Sigma'])
     delta = {}
     for q, a, q1 in spec['delta']:
-        delta[q, a] = q1
+        delta[_fresh(q), a] = _fresh(q1)
     return DFA(Q, Sigma, delta, spec['q0'], _set(spec['F']))
 
 
